@@ -32,7 +32,7 @@ Definition spec_at_most_once (s : state) : Prop :=
 (* ... and once the cascade has nothing left to do, exactly once *)
 Definition spec_exactly_once (s : state) : Prop :=
   forall r R, roots s r = Some R -> settledb s r = true ->
-    r_posted R = 1 /\ (r_trig R = true -> r_handler R = 1) /\ (r_wait R = true -> r_released R = true).
+    r_posted R = 1 /\ r_handler R = b2n (r_trig R) /\ (r_wait R = true -> r_trig R = true -> r_released R = true).
 
 (* "every monitor that was handed to the processor with an event ends finished" *)
 Definition spec_all_finished (s : state) : Prop :=
